@@ -326,15 +326,20 @@ def check(P, R, modules, scope=None, rules=("T1", "T2", "T3", "T4", "T5", "T6", 
             for c in [x for x in ast.walk(f.node) if isinstance(x, ast.Call) and isinstance(x.func, ast.Attribute) and x.func.attr == "searchsorted"]:
                 hay = c.args[0] if (isinstance(c.func.value, ast.Name) and c.func.value.id in ("np", "numpy", "da", "numerical_module", "xp")) and c.args else c.func.value
                 try:
-                    ch = _cone8(du, hay, du.stmt_of(c), interproc=False)
+                    ch = _cone8(du, hay, du.stmt_of(c), interproc=True)
                 except Exception:
                     continue
-                srt = any(isinstance(x, ast.Call) and (x.func.attr if isinstance(x.func, ast.Attribute) else getattr(x.func, "id", "")) in ("sort", "sorted", "unique", "cumsum", "arange", "linspace", "unique_labels", "argsort", "accumulate") for x in ch.nodes)
+                nm8 = lambda x: (x.func.attr if isinstance(x.func, ast.Attribute) else getattr(x.func, "id", ""))
+                srt = any(isinstance(x, ast.Call) and nm8(x) in ("sort", "sorted", "unique", "cumsum", "arange", "linspace", "unique_labels", "argsort", "accumulate") for x in ch.nodes)
+                unordered = [x for x in ch.nodes if isinstance(x, ast.Call) and nm8(x) in ("set", "frozenset", "keys", "values", "items")] + [x for x in ch.nodes if isinstance(x, (ast.Set, ast.SetComp, ast.Dict, ast.DictComp))]
+                raw_labels = [p_ for p_ in ch.params if p_ in ("y", "labels")]
                 if srt:
                     R.ok(rule + ".searchsorted", f.key, src(c)[:60], "the array searched is produced by a sort", c.lineno)
+                elif not unordered and not raw_labels:
+                    R.ok(rule + ".searchsorted", f.key, src(c)[:60], "the array searched comes from the caller / a helper: its order is not decided here", c.lineno, nontrivial=False)
                 else:
                     n += 1
-                    R.violation(rule + ".searchsorted", f.key, src(c)[:60], f"binary search in `{src(hay)[:30]}`, which is not produced by a sort (np.sort / np.unique / sorted): for labels whose order as stored is not ascending (iteration order of a set, negative or large ids) the positions returned are wrong and distinct classes are merged", c.lineno)
+                    R.violation(rule + ".searchsorted", f.key, src(c)[:60], f"binary search in `{src(hay)[:30]}`, which is not produced by a sort (np.sort / np.unique / sorted) but from {'the iteration order of a set / dict' if unordered else 'the labels as given'}: for labels whose order as stored is not ascending (negative or large ids) the positions returned are wrong and distinct classes are merged", c.lineno)
         if "T6" in rules:
             for node in indexany_sites(f.node):
                 n += 1
